@@ -1,65 +1,153 @@
 ---------------------------- MODULE Cancel ----------------------------
-EXTENDS Naturals, FiniteSets, TLC
-CONSTANTS NR, NC, Fixed
+(* C12 (and the cancelled case of C03): TaskRunner.Run / TaskRunner.Cancel and the way *)
+(* Scheduler.Schedule uses them.                                                       *)
+(*   pkg/runner/runner.go   Run: entry hand-shake, before hooks, commands, after hooks, *)
+(*                          deferred exit hand-shake;  Cancel: flag + cancelFunc, wait  *)
+(*   pkg/executor/executor.go  a command starts only under a live context; a running    *)
+(*                          command is interrupted when the context is cancelled       *)
+(*   pkg/scheduler/scheduler.go  loop launches stages, calls Cancel itself when a      *)
+(*                          stage condition cannot be evaluated, exits when cancelled, *)
+(*                          waits for the launched stages                              *)
+(* One action per critical section.  Fixed = TRUE is the hand-shake of the current     *)
+(* tree (runs in flight counted under the mutex, Cancel waits on a condition variable  *)
+(* for zero); Fixed = FALSE transcribes the pinned one (every exiting Run closes doneCh *)
+(* while canceling; Cancel receives from it) and is kept as a negative control.        *)
+EXTENDS Naturals, FiniteSets, Sequences, TLC
+
+CONSTANTS NR,        \* tasks handed to Run
+          NC,        \* Cancel calls (the last one is the scheduling loop's own when CondErr)
+          NCmd,      \* commands per task
+          Hooks,     \* tasks have one before and one after hook
+          Fixed,
+          UseSched,  \* runs are launched by a scheduling loop; Cancel = Scheduler.Cancel
+          CondErr    \* the loop itself calls Cancel (stage condition error)
 Runs == 1..NR
 Cans == 1..NC
-VARIABLES rpc, cpc, ctxCancelled, canceling, chClosed, inflight, panicked, rerr, cmdAfter
-vars == <<rpc, cpc, ctxCancelled, canceling, chClosed, inflight, panicked, rerr, cmdAfter>>
+LoopCan == IF CondErr THEN NC ELSE 0
 
-Init == /\ rpc = [i \in Runs |-> "idle"] /\ cpc = [j \in Cans |-> "idle"]
+VARIABLES rpc, cmd, cpc, ctxCancelled, canceling, chClosed, inflight, panicked,
+          rerr, ncompleted, cmdAfter, spc, schedCancelled
+vars == <<rpc, cmd, cpc, ctxCancelled, canceling, chClosed, inflight, panicked,
+          rerr, ncompleted, cmdAfter, spc, schedCancelled>>
+
+Init == /\ rpc = [i \in Runs |-> "idle"] /\ cmd = [i \in Runs |-> 1]
+        /\ cpc = [j \in Cans |-> "idle"]
         /\ ctxCancelled = FALSE /\ canceling = FALSE /\ chClosed = FALSE /\ inflight = 0
-        /\ panicked = FALSE /\ rerr = [i \in Runs |-> "none"] /\ cmdAfter = FALSE
+        /\ panicked = FALSE /\ rerr = [i \in Runs |-> "none"] /\ ncompleted = [i \in Runs |-> 0]
+        /\ cmdAfter = FALSE
+        /\ spc = IF UseSched THEN "loop" ELSE "off" /\ schedCancelled = FALSE
 
 AnyCancelReturned == \E j \in Cans : cpc[j] = "ret"
+LoopBlocked == LoopCan # 0 /\ cpc[LoopCan] \in {"c1", "wait"}
+Go(i, p) == rpc' = [rpc EXCEPT ![i] = p]
+Fail(i) == rerr' = [rerr EXCEPT ![i] = "ctx"]
+Keep(S) == UNCHANGED S
 
-RunCall(i) == /\ ~panicked /\ rpc[i] = "idle" /\ rpc' = [rpc EXCEPT ![i] = "entry"]
-              /\ UNCHANGED <<cpc, ctxCancelled, canceling, chClosed, inflight, panicked, rerr, cmdAfter>>
-\* runner.go:103 ctx check (Fixed: under the mutex, registers in-flight)
+\* Run is called: by anybody, or (UseSched) by a stage goroutine launched by the loop
+RunCall(i) == /\ ~panicked /\ rpc[i] = "idle"
+              /\ UseSched => (spc = "loop" /\ ~LoopBlocked)
+              /\ Go(i, "entry")
+              /\ Keep(<<cmd, cpc, ctxCancelled, canceling, chClosed, inflight, panicked, rerr, ncompleted, cmdAfter, spc, schedCancelled>>)
+
+\* runner.go Run entry: ctx check (Fixed: under the mutex, registering the run as in flight)
 RunEntry(i) == /\ ~panicked /\ rpc[i] = "entry"
                /\ IF ctxCancelled
-                    THEN rpc' = [rpc EXCEPT ![i] = (IF Fixed THEN "done" ELSE "defer")] /\ rerr' = [rerr EXCEPT ![i] = "ctx"] /\ UNCHANGED inflight
-                    ELSE rpc' = [rpc EXCEPT ![i] = "cmd"] /\ inflight' = (IF Fixed THEN inflight + 1 ELSE inflight) /\ UNCHANGED rerr
-               /\ UNCHANGED <<cpc, ctxCancelled, canceling, chClosed, panicked, cmdAfter>>
-\* a command starts (executor.Execute); interp refuses under a cancelled ctx
+                    THEN Go(i, IF Fixed THEN "done" ELSE "defer") /\ Fail(i) /\ UNCHANGED inflight
+                    ELSE Go(i, IF Hooks THEN "before" ELSE "cmd") /\ inflight' = (IF Fixed THEN inflight + 1 ELSE inflight) /\ UNCHANGED rerr
+               /\ Keep(<<cmd, cpc, ctxCancelled, canceling, chClosed, panicked, ncompleted, cmdAfter, spc, schedCancelled>>)
+
+\* a before hook starts (runner.go before(): executor.Execute under r.ctx)
+BeforeStart(i) == /\ ~panicked /\ rpc[i] = "before"
+                  /\ IF ctxCancelled THEN Go(i, "defer") /\ Fail(i) /\ UNCHANGED cmdAfter
+                     ELSE Go(i, "beforeRun") /\ cmdAfter' = (cmdAfter \/ AnyCancelReturned) /\ UNCHANGED rerr
+                  /\ Keep(<<cmd, cpc, ctxCancelled, canceling, chClosed, inflight, panicked, ncompleted, spc, schedCancelled>>)
+BeforeEnd(i) == /\ ~panicked /\ rpc[i] = "beforeRun"
+                /\ \/ Go(i, "cmd") /\ UNCHANGED rerr
+                   \/ ctxCancelled /\ Go(i, "defer") /\ Fail(i)
+                /\ Keep(<<cmd, cpc, ctxCancelled, canceling, chClosed, inflight, panicked, ncompleted, cmdAfter, spc, schedCancelled>>)
+
+\* a command starts (executor.Execute): the interpreter refuses under a cancelled context
 CmdStart(i) == /\ ~panicked /\ rpc[i] = "cmd"
-               /\ IF ctxCancelled
-                    THEN rpc' = [rpc EXCEPT ![i] = "defer"] /\ rerr' = [rerr EXCEPT ![i] = "ctx"] /\ UNCHANGED cmdAfter
-                    ELSE rpc' = [rpc EXCEPT ![i] = "running"] /\ cmdAfter' = (cmdAfter \/ AnyCancelReturned) /\ UNCHANGED rerr
-               /\ UNCHANGED <<cpc, ctxCancelled, canceling, chClosed, inflight, panicked>>
-\* the command ends: normally, or interrupted when the ctx is cancelled
+               /\ IF ctxCancelled THEN Go(i, "defer") /\ Fail(i) /\ UNCHANGED cmdAfter
+                  ELSE Go(i, "running") /\ cmdAfter' = (cmdAfter \/ AnyCancelReturned) /\ UNCHANGED rerr
+               /\ Keep(<<cmd, cpc, ctxCancelled, canceling, chClosed, inflight, panicked, ncompleted, spc, schedCancelled>>)
+\* it ends by itself, or is interrupted once the context is cancelled
 CmdEnd(i) == /\ ~panicked /\ rpc[i] = "running"
-             /\ rerr' = [rerr EXCEPT ![i] = IF ctxCancelled THEN "ctx" ELSE "ok"]
-             /\ rpc' = [rpc EXCEPT ![i] = "defer"]
-             /\ UNCHANGED <<cpc, ctxCancelled, canceling, chClosed, inflight, panicked, cmdAfter>>
-\* deferred hand-shake, runner.go:95-101
+             /\ \/ /\ ncompleted' = [ncompleted EXCEPT ![i] = @ + 1]
+                   /\ IF cmd[i] < NCmd THEN Go(i, "cmd") /\ cmd' = [cmd EXCEPT ![i] = @ + 1] /\ UNCHANGED rerr
+                      ELSE Go(i, IF Hooks THEN "after" ELSE "defer") /\ rerr' = [rerr EXCEPT ![i] = "ok"] /\ UNCHANGED cmd
+                \/ ctxCancelled /\ Go(i, "defer") /\ Fail(i) /\ UNCHANGED <<ncompleted, cmd>>
+             /\ Keep(<<cpc, ctxCancelled, canceling, chClosed, inflight, panicked, cmdAfter, spc, schedCancelled>>)
+
+\* after hooks: failures (also "context canceled") are only logged; the task's result stands
+AfterStart(i) == /\ ~panicked /\ rpc[i] = "after"
+                 /\ IF ctxCancelled THEN Go(i, "defer") /\ UNCHANGED cmdAfter
+                    ELSE Go(i, "afterRun") /\ cmdAfter' = (cmdAfter \/ AnyCancelReturned)
+                 /\ Keep(<<cmd, cpc, ctxCancelled, canceling, chClosed, inflight, panicked, rerr, ncompleted, spc, schedCancelled>>)
+AfterEnd(i) == /\ ~panicked /\ rpc[i] = "afterRun" /\ Go(i, "defer")
+               /\ Keep(<<cmd, cpc, ctxCancelled, canceling, chClosed, inflight, panicked, rerr, ncompleted, cmdAfter, spc, schedCancelled>>)
+
+\* the deferred exit hand-shake
 RunDefer(i) == /\ ~panicked /\ rpc[i] = "defer"
                /\ IF Fixed THEN inflight' = inflight - 1 /\ UNCHANGED <<chClosed, panicked>>
                   ELSE /\ UNCHANGED inflight
                        /\ IF canceling THEN IF chClosed THEN panicked' = TRUE /\ UNCHANGED chClosed
                                                        ELSE chClosed' = TRUE /\ UNCHANGED panicked
                                       ELSE UNCHANGED <<chClosed, panicked>>
-               /\ rpc' = [rpc EXCEPT ![i] = "done"]
-               /\ UNCHANGED <<cpc, ctxCancelled, canceling, rerr, cmdAfter>>
-CancelCall(j) == /\ ~panicked /\ cpc[j] = "idle" /\ cpc' = [cpc EXCEPT ![j] = "c1"]
-                 /\ UNCHANGED <<rpc, ctxCancelled, canceling, chClosed, inflight, panicked, rerr, cmdAfter>>
-\* runner.go:184-190
+               /\ Go(i, "done")
+               /\ Keep(<<cmd, cpc, ctxCancelled, canceling, rerr, ncompleted, cmdAfter, spc, schedCancelled>>)
+
+\* Cancel is called from outside (Scheduler.Cancel sets its own flag first)
+CancelCall(j) == /\ ~panicked /\ cpc[j] = "idle" /\ j # LoopCan
+                 /\ cpc' = [cpc EXCEPT ![j] = "c1"]
+                 /\ schedCancelled' = (schedCancelled \/ UseSched)
+                 /\ Keep(<<rpc, cmd, ctxCancelled, canceling, chClosed, inflight, panicked, rerr, ncompleted, cmdAfter, spc>>)
+\* the scheduling loop calls Cancel itself (scheduler.go: condition error)
+LoopCancelCall == /\ ~panicked /\ LoopCan # 0 /\ cpc[LoopCan] = "idle" /\ spc = "loop"
+                  /\ cpc' = [cpc EXCEPT ![LoopCan] = "c1"] /\ schedCancelled' = TRUE
+                  /\ Keep(<<rpc, cmd, ctxCancelled, canceling, chClosed, inflight, panicked, rerr, ncompleted, cmdAfter, spc>>)
+\* lock; set canceling and cancel the context; (then wait)
 CancelSet(j) == /\ ~panicked /\ cpc[j] = "c1"
                 /\ canceling' = TRUE /\ ctxCancelled' = TRUE
                 /\ cpc' = [cpc EXCEPT ![j] = "wait"]
-                /\ UNCHANGED <<rpc, chClosed, inflight, panicked, rerr, cmdAfter>>
-\* runner.go:191
+                /\ Keep(<<rpc, cmd, chClosed, inflight, panicked, rerr, ncompleted, cmdAfter, spc, schedCancelled>>)
 CancelWait(j) == /\ ~panicked /\ cpc[j] = "wait"
                  /\ IF Fixed THEN inflight = 0 ELSE chClosed
                  /\ cpc' = [cpc EXCEPT ![j] = "ret"]
-                 /\ UNCHANGED <<rpc, ctxCancelled, canceling, chClosed, inflight, panicked, rerr, cmdAfter>>
-Next == \/ \E i \in Runs : RunCall(i) \/ RunEntry(i) \/ CmdStart(i) \/ CmdEnd(i) \/ RunDefer(i)
+                 /\ Keep(<<rpc, cmd, ctxCancelled, canceling, chClosed, inflight, panicked, rerr, ncompleted, cmdAfter, spc, schedCancelled>>)
+
+\* the loop notices its cancelled flag (or has nothing left to launch) and leaves; then wg.Wait
+LoopExit == /\ ~panicked /\ spc = "loop" /\ ~LoopBlocked
+            /\ schedCancelled \/ \A i \in Runs : rpc[i] # "idle"
+            /\ spc' = "exited"
+            /\ Keep(<<rpc, cmd, cpc, ctxCancelled, canceling, chClosed, inflight, panicked, rerr, ncompleted, cmdAfter, schedCancelled>>)
+SchedReturn == /\ ~panicked /\ spc = "exited" /\ \A i \in Runs : rpc[i] \in {"idle", "done"}
+               /\ spc' = "returned"
+               /\ Keep(<<rpc, cmd, cpc, ctxCancelled, canceling, chClosed, inflight, panicked, rerr, ncompleted, cmdAfter, schedCancelled>>)
+
+RunStep(i) == RunEntry(i) \/ BeforeStart(i) \/ BeforeEnd(i) \/ CmdStart(i) \/ CmdEnd(i) \/ AfterStart(i) \/ AfterEnd(i) \/ RunDefer(i)
+Next == \/ \E i \in Runs : RunCall(i) \/ RunStep(i)
         \/ \E j \in Cans : CancelCall(j) \/ CancelSet(j) \/ CancelWait(j)
-Fair == /\ \A i \in Runs : WF_vars(RunEntry(i)) /\ WF_vars(CmdStart(i)) /\ WF_vars(CmdEnd(i)) /\ WF_vars(RunDefer(i))
+        \/ LoopCancelCall \/ LoopExit \/ SchedReturn
+
+\* commands terminate (and under a cancelled context they are interrupted); every critical section is fair
+Fair == /\ \A i \in Runs : WF_vars(RunEntry(i)) /\ WF_vars(BeforeStart(i)) /\ WF_vars(BeforeEnd(i)) /\ WF_vars(CmdStart(i))
+                           /\ WF_vars(CmdEnd(i)) /\ WF_vars(AfterStart(i)) /\ WF_vars(AfterEnd(i)) /\ WF_vars(RunDefer(i))
         /\ \A j \in Cans : WF_vars(CancelSet(j)) /\ WF_vars(CancelWait(j))
+        /\ WF_vars(LoopExit) /\ WF_vars(SchedReturn)
 Spec == Init /\ [][Next]_vars /\ Fair
 
+----------------------------------------------------------------------
 NoPanic == ~panicked
+\* once a Cancel call has returned no command or hook is started any more
 NoStartAfterCancel == ~cmdAfter
+\* a task reports success only if every one of its commands ran to completion
+InterruptedReportsError == \A i \in Runs : (rpc[i] = "done" /\ rerr[i] = "ok") => ncompleted[i] = NCmd
+\* a run that was refused or interrupted reports the context error
+DoneHasResult == \A i \in Runs : rpc[i] = "done" => rerr[i] \in {"ok", "ctx"}
+\* when a Cancel has returned nothing is in flight (Fixed)
+CancelReturnedMeansIdle == Fixed => \A j \in Cans : cpc[j] = "ret" =>
+                              \A i \in Runs : rpc[i] \in {"idle", "entry", "done"}
 CancelReturns == \A j \in Cans : (cpc[j] = "c1") ~> (cpc[j] = "ret")
-InterruptedReportsError == \A i \in Runs : (rpc[i] = "done" /\ rerr[i] = "ok") => TRUE
+ScheduleReturns == UseSched => <>(spc = "returned")
 =======================================================================
